@@ -40,6 +40,10 @@ def generate(prop, tier, seed, run, log):
             whats.append("shapes")
         if prop in OWN:
             whats.append(OWN[prop])
+    # generated sources of other properties may be stale with respect to the harness crate (a
+    # changed table layout would break the build of every check): each run starts from a clean slate
+    import shutil
+    shutil.rmtree(OUT, ignore_errors=True)
     if not whats:
         return {}
     t0 = time.time()
